@@ -389,6 +389,33 @@ pub fn check_all(obs: &Obs, out: &mut CaseOut) -> Summary {
         }
     }
 
+    // ---- evidence: lanes registered at run time, remotes that attached while the write task waited for one
+    for li in lanes.iter().filter(|l| l.spec.late) {
+        if li.rec.registered.is_some() {
+            out.count("late-lanes-registered-by-the-running-agent");
+        }
+        let asked = li.rec.received.iter().find(|r| matches!(r.what, Received::InitComplete)).map(|r| r.t);
+        let acked = li.rec.emitted.iter().find(|e| matches!(e.what, Emitted::Initialized)).map(|e| e.t0);
+        if let (Some(a), Some(b)) = (asked, acked) {
+            out.count("late-lanes-acknowledged-after-being-held");
+            for s in obs.sessions.iter().filter(|s| !s.one_way && !s.is_probe && s.attached_t0 > a && s.attached_t0 < b) {
+                out.count("attach-race/remote-attached-while-the-write-task-waited-for-a-lane");
+                let g = s.reqs.lock();
+                let synced = s.log.lock().frames.iter().filter(|f| f.kind == FrameKind::Synced).count();
+                if g.reqs.iter().any(|r| r.kind == ReqKind::Sync && r.t0 < b) {
+                    out.count("attach-race/that-remote-synced-before-the-lane-acknowledged");
+                    if synced > 0 {
+                        out.count("attach-race/that-remote-got-synced");
+                    }
+                }
+            }
+        }
+    }
+    if obs.cfg.with_store {
+        out.count("hosted-with-a-store");
+        out.add("store-writes", obs.store_writes);
+    }
+
     // ---- lanes: the requests the runtime delivered must be well formed
     for li in &lanes {
         for r in &li.rec.received {
@@ -2044,6 +2071,10 @@ fn check_reporting(obs: &Obs, lanes: &[LaneInfo], views: &[SView], cuts: &[Optio
     let mut prev_any_under = false;
     let mut prev_any_over = false;
     for li in lanes {
+        // (a lane the running agent was never told to register, or whose registration did not finish, has none)
+        if li.spec.late && !li.rec.emitted.iter().any(|e| matches!(e.what, Emitted::Initialized) && e.t1.is_some()) {
+            continue;
+        }
         if !obs.registered_reporters.iter().any(|n| *n == li.spec.name) {
             out.violation("C20", format!("reporter-not-registered/{}", li.spec.kind.name()), "a lane was never registered for reporting although the agent runs with NodeReporting", json!({"lane": li.spec.name}));
         }
